@@ -84,7 +84,7 @@ const reFlags = Object.getOwnPropertyDescriptor(RegExp.prototype, 'flags').get;
 function newRun(job, resp, side) {
   const R = {
     side, resp: resp && typeof resp === 'object' ? resp : {},
-    log: [], effs: [], hooks: [], overflow: false, depth: 0,
+    log: [], effs: [], hooks: [], overflow: false, depth: 0, shadow: false, lastPrim: new Map(),
     counters: new Map(),
     ids: new WeakMap(),      // membrane proxy / named realm object -> canonical id
     targets: new WeakMap(),  // proxy target -> { id, proxy }
@@ -178,10 +178,14 @@ function newRun(job, resp, side) {
       if (typeof key === 'symbol') {
         if (key === Symbol.toPrimitive) {
           return (hint) => {
+            // shadow mode (hook self-check): replay the last real coercion result, log nothing
+            if (R.shadow) return R.lastPrim.has(id) ? R.lastPrim.get(id) : '<' + id + '>';
             const n = count('prim|' + id);
             emit({ e: 'prim', o: id, h: String(hint) }, 'prim:' + id + '#' + n);
             const v = answer('prim:' + id + '#' + n, 'prim', () => '<' + id + '>');
-            return (v !== null && (typeof v === 'object' || typeof v === 'function')) ? '<' + id + '>' : v;
+            const res = (v !== null && (typeof v === 'object' || typeof v === 'function')) ? '<' + id + '>' : v;
+            R.lastPrim.set(id, res);
+            return res;
           };
         }
         if (key === Symbol.iterator) {
@@ -308,7 +312,39 @@ function newRun(job, resp, side) {
         if (!fns.has(name)) {
           fns.set(name, (...args) => {
             if (R.hooks.length >= LOG_CAP) { R.overflow = true; throw OVERFLOW; }
-            R.hooks.push({ name, configured: configured.has(name), at: R.log.length, args: reprs(args), result: repr(args[0]) });
+            // Self-check of the hook contract (property C03, dynamic half): is args[0] the value of the
+            // original operation applied to the remaining arguments?  Re-computed in shadow mode (no
+            // logging, coercions replay their last real result) where that is side-effect free:
+            //   plus   : args[1] + args[2]
+            //   tpl    : String(result) contains the coerced substitutions in order
+            //   method : a native (non-membrane) function is re-applied; a membrane function is matched
+            //            against its call event by the TLA+ decider ("log")
+            const kind = (job.hookkinds || {})[name];
+            let check = 'skip';
+            if (kind && !R.shadow) {
+              R.shadow = true;
+              try {
+                if (kind === 'plus') {
+                  check = args.length === 3 && repr(args[1] + args[2]) === repr(args[0]) ? 'ok' : 'mismatch';
+                } else if (kind === 'tpl') {
+                  const text = String(args[0]);
+                  let pos = 0; check = 'ok';
+                  for (let i = 1; i < args.length; i++) {
+                    const piece = typeof args[i] === 'symbol' ? null : String(args[i]);
+                    const at = piece === null ? -1 : text.indexOf(piece, pos);
+                    if (at < 0) { check = 'mismatch'; break; }
+                    pos = at + piece.length;
+                  }
+                } else if (kind === 'method') {
+                  const fn = args[1];
+                  if (args.length < 3) check = 'mismatch';
+                  else if (typeof fn === 'function' && R.ids.get(fn) === undefined && /\{\s*\[native code\]\s*\}$/.test(Function.prototype.toString.call(fn))) {
+                    check = repr(Reflect.apply(fn, args[2], args.slice(3))) === repr(args[0]) ? 'ok' : 'mismatch';
+                  } else if (R.ids.get(fn) !== undefined) check = 'log';
+                }
+              } catch (e) { if (e === OVERFLOW) throw e; check = 'skip'; } finally { R.shadow = false; }
+            }
+            R.hooks.push({ name, configured: configured.has(name), at: R.log.length, args: reprs(args), result: repr(args[0]), check });
             return args[0];
           });
         }
